@@ -222,8 +222,8 @@ Section S.
      wire, so outstanding requests of one server carry pairwise distinct identifiers by construction *)
   Lemma nth1_splice buf off new d : (2 <= off)%nat -> (2 <= length buf)%nat ->
     nth 1 (splice buf off new) d = nth 1 buf d /\ (2 <= length (splice buf off new))%nat.
-  Proof.
-    intros Ho Hl. unfold splice. destruct buf as [|a [|b rest]]; cbn [length] in Hl; try lia.
+  Proof using.
+    clear. intros Ho Hl. unfold splice. destruct buf as [|a [|b rest]]; cbn [length] in Hl; try lia.
     destruct off as [|[|off]]; try lia. cbn [firstn app nth length]. split; [reflexivity | lia].
   Qed.
 
